@@ -1,6 +1,7 @@
 /- line-protocol handlers for C08 (Pauli encodings) -/
 import Driver.Loop
 import NumqiModel.Pauli
+import Driver.C08Batch
 
 namespace Numqi.Driver.C08
 open Numqi Numqi.Pauli
@@ -80,7 +81,7 @@ def handle (args : List String) : String :=
       return if (ofF2List n a).hermitianFlag then "1" else "0"
   | [kind, n, a] => Id.run do
       -- "mat": functional form; "full": per-qubit-factor (Kronecker) form
-      if kind ≠ "mat" && kind ≠ "full" then return "bad-op"
+      if kind ≠ "mat" && kind ≠ "full" then return Numqi.Driver.C08Batch.handle [kind, n, a]
       let some n := n.toNat? | return "bad-op"
       let some a := parseBits? a | return "bad-op"
       if a.length ≠ 2*n+2 then return "bad-op"
@@ -88,6 +89,6 @@ def handle (args : List String) : String :=
       let bs := (allBitsMSB n).map (Bits.ofList n)
       let f := if kind = "mat" then Pauli.matExp p else Pauli.fullMatrixExp p
       return String.ofList (bs.flatMap fun b' => bs.map fun b => expChar (f b' b))
-  | _ => "bad-op"
+  | args => Numqi.Driver.C08Batch.handle args   -- batched conversions and from_np_list (model: NumqiModel/PauliBatch.lean)
 
 end Numqi.Driver.C08
